@@ -236,6 +236,8 @@ def _replay_one(run, name, worst):
     if obl is None:
         return rep
     rep["target"] = getattr(obl, "target", None)
+    # hard wall-clock limit for the model search (z3 timeouts are not honoured inside some nonlinear procedures)
+    wd = solve._NoWatchdog()
     try:
         s = z3.Solver()
         s.set("timeout", 30000)
@@ -286,7 +288,9 @@ def _replay_one(run, name, worst):
             rep["ghost"] = {k: concretize(model, v) for k, v in gh.items()
                             if isinstance(v, (z3.ExprRef, Arr, int, bool, str)) and not k.startswith("__")}
     except Exception as e:
-        rep["concretize_error"] = f"{type(e).__name__}: {e}"
+        rep["concretize_error"] = f"{type(e).__name__}: {e}" + (" [hard limit of the model search reached]" if wd.fired else "")
+    finally:
+        wd.stop()
     if rep["inputs"] is None and rep.get("target") in MODEL_FREE_ADAPTERS:
         # the solver gave no model within the budget, but this function's replay adapter carries its own family of
         # real inputs (it only takes the configuration from the ghost): a failure it finds is a real failing input
@@ -550,4 +554,7 @@ def main():
 
 
 if __name__ == "__main__":
+    if os.environ.get("VERIF_DUMP_AFTER"):
+        import faulthandler
+        faulthandler.dump_traceback_later(int(os.environ["VERIF_DUMP_AFTER"]), repeat=True)
     sys.exit(main())
